@@ -82,6 +82,14 @@ impl Persister for FilePersister {
                 format!("{COMPONENT} (error: {error}) - failed to write data to file: {path}")
             })
             .map_err(|_| IggyError::CannotWriteToFile)?;
+        // A tokio file performs the write in the background; without waiting for it the call returned before the
+        // data was in the file, write errors were lost and two consecutive calls could reach the file out of order.
+        file.flush()
+            .await
+            .with_error_context(|error| {
+                format!("{COMPONENT} (error: {error}) - failed to flush file: {path}")
+            })
+            .map_err(|_| IggyError::CannotWriteToFile)?;
         Ok(())
     }
 
@@ -96,6 +104,14 @@ impl Persister for FilePersister {
             .await
             .with_error_context(|error| {
                 format!("{COMPONENT} (error: {error}) - failed to write data to file: {path}")
+            })
+            .map_err(|_| IggyError::CannotWriteToFile)?;
+        // A tokio file performs the write in the background; without waiting for it the call returned before the
+        // data was in the file, write errors were lost and two consecutive calls could reach the file out of order.
+        file.flush()
+            .await
+            .with_error_context(|error| {
+                format!("{COMPONENT} (error: {error}) - failed to flush file: {path}")
             })
             .map_err(|_| IggyError::CannotWriteToFile)?;
         Ok(())
